@@ -154,6 +154,10 @@ def type_compat_lenient(norm, rt):
     a, b = norm.lstrip('&'), rt.lstrip('&')
     if a == b or a == '*' or b == '?':
         return True
+    if a == 'Self' or (len(a) <= 2 and a[:1].isupper() and a.isalnum()):
+        return True       # default method of a trait (`&Self`) / generic parameter (T, U, V, T0): any receiver
+    if a.startswith('impl '):
+        return True       # `impl Trait` argument
     if any(a in g and b in g for g in _LENIENT_EQ):
         return True
     return type_compat(a, b)
